@@ -96,6 +96,12 @@ def concrete(typ, role, ptr, default, envpat, clipat, rnd, custom=None, tag=""):
             if string_like or typ == "custom":
                 elems = [e.strip().replace(",", ";") for e in elems]
             raw = " %s ,%s" % (elems[0], elems[1]) if i % 2 == 0 else "%s, %s " % (elems[0], elems[1])
+            # a list that ends in a comma has an empty last element: one more (empty) string, or an invalid number
+            if rnd.random() < 0.25 and ((string_like or typ == "custom") and st == "valid" or not (string_like or typ == "custom") and st == "invalid" and typ != "custom"):
+                if not (string_like or typ == "custom"):
+                    elems[1], oks[1] = tk.valid(), True
+                elems, oks = elems + [""], oks + [string_like or typ == "custom"]
+                raw = "%s,%s," % (elems[0], elems[1])
         else:
             elems = [tk.valid() if st == "valid" else tk.invalid()]
             oks = [st == "valid"]
